@@ -232,6 +232,9 @@ def check(res: Result, dim, system, tier, only=None):
                         "arr[...].reshape(shape + (1,))": (lambda a: a.reshape(a.shape + (1,)), True), "arr.reshape(shape + (1,)).squeeze(-1)": (lambda a: a.reshape(a.shape + (1,)).squeeze(-1), True),
                         "arr.flatten()": (lambda a: a.flatten(), True), "arr.T.copy(order='C')": (lambda a: a.T.copy(order="C"), True),
                         "arr.astype(arr.dtype)": (lambda a: a.astype(a.dtype), True),
+                        # another structured dtype: float32 fields under the generic names, and under the flavor's own spelling
+                        "arr.astype(float32 fields)": (lambda a: a.astype([(nm_, np.float32) for nm_ in names]), True),
+                        "arr.astype(float32 fields, own spelling)": (lambda a: _astype_spelled(a, names, fnames), True),
                     }
                     for proto in range(0, pickle.HIGHEST_PROTOCOL + 1):
                         ops[f"pickle.loads(pickle.dumps(arr, {proto}))"] = ((lambda p: lambda a: pickle.loads(pickle.dumps(a, p)))(proto), True)
@@ -346,6 +349,14 @@ def check_object_history(res: Result, dim):
                     continue
                 res.nontrivial += 1
     res.sample({"kind": "object_history", "dim": dim, "states": len(states), "value_tuples": [[float(x) for x in v[:dim]] for v in HVALS], "value_kinds": sorted({type(v[0]).__name__ for v in HVALS})})
+
+
+def _astype_spelled(a, names, fnames):
+    """astype to float32 fields spelled as the flavor spells them (px, py, ... for momentum arrays); for the plain reference array the
+    expected result carries the generic names (the vector classes store generic names)"""
+    if isinstance(a, vector.backends.numpy.VectorNumpy):
+        return a.astype([(fn_, np.float32) for fn_ in fnames])
+    return a.astype([(nm_, np.float32) for nm_ in names])
 
 
 def run_shard(shard, tier):
